@@ -245,7 +245,7 @@ def _call_read_onefile(w, op, obj, kw):
 def _exp_read_onefile(w, op, res):
     tag = w.pool[op["obj"]].tag
     if tag["filetype"] != "LAMMPS" or tag["path"] not in w.files:
-        return []
+        return _exp_held(w, op, res)
     return [("", "snaps", res, _reader_snaps_tag(w, w.files[tag["path"]]))]
 
 
@@ -294,3 +294,87 @@ def _call_log(w, op, kw):
 
 
 Adapter("read_lammpslog", "readers", "reader.simulation_log.read_lammpslog", gen=_gen_log, call=_call_log, weight=0.5)
+
+
+# ------------------------------------------- HOOMD files through the library's wrappers ----
+# (gsd / mdtraj are stub modules, see simkit/peers.py; the stub HOOMD process writes the files)
+
+GSD_PATHS = ("hoomd/run_a.gsd", "hoomd/run_b.gsd", "data.v1/run.gsd")
+
+
+def _gen_mk_gsd(w, rng):
+    ndim = rng.choice([2, 3])
+    return {"args": {"path": rng.choice(GSD_PATHS), "dcd": rng.random() < 0.6,
+                     "recipe": {"subseed": rng.randrange(1 << 40), "ndim": ndim, "N": rng.randint(2, 9), "T": rng.randint(1, 4),
+                                "K": rng.randint(1, 3), "share_typeid": rng.random() < 0.5, "boxvary": rng.random() < 0.3}}}
+
+
+def _call_mk_gsd(w, op, kw):
+    import os
+    from simkit import peers
+    from worlds.c19 import make_hoomd
+    frames, xyz, lengths = make_hoomd(kw["recipe"])
+    d = os.path.dirname(kw["path"])
+    if d:
+        os.makedirs(d, exist_ok=True)
+    peers.write_gsd(kw["path"], frames)
+    if kw["dcd"]:
+        peers.write_dcd(kw["path"][:-3] + "dcd", xyz, lengths)
+    return None
+
+
+def _out_mk_gsd(w, op):
+    a = op["args"]
+    out = [(a["path"], {"kind": "gsd", "ndim": a["recipe"]["ndim"], "dcd": a["dcd"], "snaps": None})]
+    if a["dcd"]:
+        out.append((a["path"][:-3] + "dcd", {"kind": "dcd", "snaps": None}))
+    return out
+
+
+Adapter("stub.mk_gsd", "readers", "reader.gsd_reader_helper#stub-hoomd-process", covers=[], gen=_gen_mk_gsd,
+        call=_call_mk_gsd, outputs=_out_mk_gsd, faultable=False, weight=1.0)
+
+
+def _gsd_files(w, dcd):
+    out = []
+    for p, f in sorted(w.files.items()):
+        if f["kind"] == "gsd" and (not dcd or (f["dcd"] and p[:-3] + "dcd" in w.files and w.files[p[:-3] + "dcd"]["src"] == f["src"])):
+            out.append(p)
+    return out
+
+
+def _gen_gsd_wrapper(dcd):
+    def gen(w, rng):
+        c = _gsd_files(w, dcd)
+        if not c:
+            return None
+        p = rng.choice(c)
+        reads = {p: w.files[p]["src"]}
+        if dcd:
+            reads[p[:-3] + "dcd"] = w.files[p]["src"]
+        return {"args": {"file_name": p, "ndim": w.files[p]["ndim"]}, "reads": reads}
+    return gen
+
+
+Adapter("read_gsd_wrapper", "readers", "reader.gsd_reader_helper.read_gsd_wrapper", gen=_gen_gsd_wrapper(False),
+        exports=_exp_held, prefix="S")
+Adapter("read_gsd_dcd_wrapper", "readers", "reader.gsd_reader_helper.read_gsd_dcd_wrapper", gen=_gen_gsd_wrapper(True),
+        exports=_exp_held, prefix="S")
+
+
+def _gen_dumpreader_gsd(w, rng):
+    dcd = rng.random() < 0.5
+    c = _gsd_files(w, dcd)
+    if not c:
+        return None
+    p = rng.choice(c)
+    kind = "GSD_DCD" if dcd else "GSD"
+    reads = {p: w.files[p]["src"]}
+    if dcd:
+        reads[p[:-3] + "dcd"] = w.files[p]["src"]
+    return {"args": {"filename": p, "ndim": w.files[p]["ndim"], "filetype": kind}, "reads": reads,
+            "meta": {"filetype": kind, "path": p}}
+
+
+Ctor("DumpReader.init_gsd", "readers", "reader.dump_reader.DumpReader#gsd", "DumpReader", covers=[], gen=_gen_dumpreader_gsd,
+     call=_call_dumpreader_init, faultable=False, weight=0.6)
